@@ -42,6 +42,11 @@ CHECKS = {
             "Scripts are composed from type-flow scenarios with generated values and tape-controlled branches; every value is printed after every assignment and compared with CPython's run, and the C++ declaration of each user name must be able to hold every Python type the reference run observed in it.",
             "Same trusted base as C01; scenario classes of open findings are off by construction and covered by their witnesses.",
             "DESIGN.md 3/C02"),
+    "C03": ("translation_validation",
+            "metamorphic pairs (literal in a foldable position vs the same value routed through variables/helpers) plus differential testing against CPython, on generated folding scenarios",
+            "Scenarios place foldable operands (delays, pins, blink/fade/brightness arguments, range bounds, len(), flash patterns, glyph bitmaps, sensor model names) as folded literal arithmetic and as run-time variables assigned in branches/loops/helpers, including operands whose run-time value differs from the value they had when the line was parsed; both renderings must agree with CPython and with each other.",
+            "Same trusted base as C01; open staleness classes (flash_pattern after a conditional re-assignment, device pin by re-assigned name) are excluded and witnessed.",
+            "DESIGN.md 3/C03"),
 }
 
 PENDING = {}
